@@ -435,7 +435,8 @@ theorem eff_start_child (w : World) (hw : WOK w ds) (p : Nat) (pa : Act) (hc : w
         acts := w.acts.set p { pa with last := pa.last + 1 } ++
           [{ uuid := pa.uuid, level := pa.level ++ [pa.last + 1], atype := sp.atype, sers := sp.sers }]
         ctx := some p
-        slots := w.slots ++ [(p, pa.last + 1)] } : World) ⟨hw.dests, hw.globals⟩ w.acts.length
+        slots := w.slots ++ [(p, pa.last + 1)]
+        lastSlot := some (p, pa.last + 1) } : World) ⟨hw.dests, hw.globals⟩ w.acts.length
     { uuid := pa.uuid, level := pa.level ++ [pa.last + 1], atype := sp.atype, sers := sp.sers }
     (by simp) sp.fields hp
   exact ⟨by rw [e.acts]; simp, e.ctx.trans hc.symm, e.tick, e.nu, e.dests, e.globals, e.stage⟩
